@@ -107,7 +107,11 @@ func (e *SpecEnv) coerce(t Term, s *Sort) Term {
 	case KInt, KRef, KErr, KFunc, KMap:
 		return Term{t.S, s}
 	case KBV:
-		bi, ok := new(big.Int).SetString(t.S, 0)
+		txt := t.S
+		if strings.HasPrefix(txt, "(- ") {
+			txt = "-" + strings.TrimSuffix(strings.TrimPrefix(txt, "(- "), ")")
+		}
+		bi, ok := new(big.Int).SetString(txt, 0)
 		if !ok {
 			e.bad("bad literal %s", t.S)
 		}
